@@ -5,6 +5,7 @@ import (
 	"crypto/x509"
 	"encoding/binary"
 	"encoding/json"
+	"errors"
 	"fmt"
 	"math/big"
 	"os"
@@ -406,6 +407,7 @@ func runC11(r *mc.Run) {
 
 	c11SignatureShapes(r)
 	c11LongLived(r)
+	c11RootCrlPoints(r)
 
 	// genuine Intel samples
 	now := world.TimeSetAt(intelRefTime)
@@ -521,6 +523,76 @@ func c11LongLived(r *mc.Run) {
 		}
 	}
 	r.SectionDone(mc.Section{Name: "long-lived-worlds", Evaluations: int64(n), Exhaustive: true})
+}
+
+// c11RootCrlPoints: honest worlds whose root names two or three CRL distribution points, of which some are down or
+// serve something that is not a CRL while another delivers the clean list: an honest quote is accepted at every level.
+func c11RootCrlPoints(r *mc.Run) {
+	T := world.CachedPKI("T")
+	const dp3 = "https://mirror2.example.test/IntelSGXRootCA.der"
+	kinds := []string{"ok", "down", "error-page", "empty", "truncated"}
+	n := 0
+	for _, points := range [][]string{{world.RootCRLURL, c05dp2}, {world.RootCRLURL, c05dp2, dp3}} {
+		total := 1
+		for range points {
+			total *= len(kinds)
+		}
+		for code := 0; code < total; code++ {
+			ans := make([]int, len(points))
+			c, anyOK := code, false
+			for i := range points {
+				ans[i] = c % len(kinds)
+				c /= len(kinds)
+				anyOK = anyOK || ans[i] == 0
+			}
+			if !anyOK {
+				continue
+			}
+			var names []string
+			for _, a := range ans {
+				names = append(names, kinds[a])
+			}
+			w := world.Honest("T")
+			pk := *T
+			pk.Root = world.MakeCert(world.CertSpec{CN: world.CNRoot, IsCA: true, Key: T.RootKey, MaxPathLen: 1, CRLDP: points}, nil, T.RootKey)
+			w.PKI = &pk
+			w.Spec.PKI = w.PKI
+			w.Parts = w.Spec.Parts()
+			w.Roots = world.Pool(pk.Root)
+			w.RootCrl = world.MakeCRL(world.CRLSpec{Issuer: pk.Root, Signer: pk.RootKey})
+			w.Finish()
+			good := world.Response{Body: w.RootCrl}
+			for i, u := range points {
+				switch kinds[ans[i]] {
+				case "ok":
+					w.Getter.Responses[u] = good
+				case "down":
+					w.Getter.Responses[u] = world.Response{Err: errors.New("dial tcp: connection refused")}
+				case "error-page":
+					w.Getter.Responses[u] = world.Response{Body: []byte("<html>503 Service Unavailable</html>")}
+				case "empty":
+					w.Getter.Responses[u] = world.Response{Body: []byte{}}
+				case "truncated":
+					w.Getter.Responses[u] = world.Response{Body: w.RootCrl[:len(w.RootCrl)-9]}
+				}
+			}
+			for _, level := range []int{world.L0, world.L1, world.L2} {
+				id := fmt.Sprintf("root-crl-points/%s/%s", strings.Join(names, ","), lvlName[level])
+				if !r.Want(id) {
+					continue
+				}
+				n++
+				err := verifyRawBoth(r, id, w.Raw(), w.Options(level))
+				out := verdict(err)
+				if err != nil {
+					r.Violate("root-crl-points:honest-rejected", id, "an honestly produced, in-date quote is rejected at "+lvlName[level]+" although a distribution point of the root delivers the clean CRL ("+strings.Join(names, ",")+"): "+errStr(err), nil)
+					out += "!"
+				}
+				r.Eval(id, true, "root-crl-points:"+lvlName[level]+":"+out)
+			}
+		}
+	}
+	r.SectionDone(mc.Section{Name: "root-crl-distribution-points", Evaluations: int64(n), Exhaustive: true})
 }
 
 func c11SignatureShapes(r *mc.Run) {
